@@ -12,7 +12,7 @@ from harness.gen import schema as S
 from harness.impl import py_impl, cpp_full
 from harness.checks import pycorpus
 
-GEN_KW = dict(n_decls=9, shared_sizers=False, small_discs=True)
+GEN_KW = dict(n_decls=9, shared_sizers=False)
 
 # the hand-made corpus without arrays sharing a sizer (rejected by the C++ full generator by design)
 CPP_CORPUS_TEXT = '\n'.join(line for line in pycorpus.CORPUS_TEXT.splitlines()
@@ -29,6 +29,10 @@ struct WideCntS { i64 n; OptSize x<@n>; };
 struct WideCnt16 { u8 a; u64 n; u16 x<@n>; };
 struct EnArr { En a[2]; En b<>; En c<3>; u16 t; };
 struct EnArrG { u8 k; En g<...>; };
+enum EDup { EDup_First = 1, EDup_Default = 1, EDup_Other = 2, EDup_Big = 2147483648, EDup_Top = 4294967295 };
+struct DupE { EDup e; EDup a<>; };
+union BigDisc { 1: u8 a; 2147483648: u32 b; 4294967295: EDup c; };
+struct BigDiscS { BigDisc u; u8 t; };
 '''
 
 
@@ -42,14 +46,16 @@ def parse_cpp_corpus():
 
 
 class CppCase(object):
-    __slots__ = ('batch', 'text', 'name', 'tree', 'cls', 'tid')
+    __slots__ = ('batch', 'text', 'name', 'tree', 'cls', 'tid', 'directed')
 
-    def __init__(self, batch, text, name, tree, cls, tid):
-        self.batch, self.text, self.name, self.tree, self.cls, self.tid = batch, text, name, tree, cls, tid
+    def __init__(self, batch, text, name, tree, cls, tid, directed=None):
+        self.batch, self.text, self.name, self.tree, self.cls, self.tid, self.directed = batch, text, name, tree, cls, tid, directed
 
 
 class CppCorpus(object):
-    def __init__(self, check, n_batches, gen_kwargs=None, corpus=True, opt=None):
+    def __init__(self, check, n_batches, gen_kwargs=None, corpus=True, opt=None, extra=()):
+        """extra: [(schema text, base name, sanitizer flags or None)] - hand-made batches for directed cases only: their
+        types carry `directed = base` and are skipped by the generic streams (`plain_types`)"""
         self.check = check
         self.workdir = tempfile.mkdtemp(prefix='prophy-verif-')
         self.types = []
@@ -63,18 +69,27 @@ class CppCorpus(object):
         for i in range(n_batches):
             sc = S.Gen(check.rng, **kw).schema()
             specs.append((S.to_prophy(sc), sc, 'b%d' % i))
+        san = {}
+        for text, base, san_flags in extra:
+            saved = pycorpus.CORPUS_TEXT
+            try:
+                pycorpus.CORPUS_TEXT = text
+                specs.append((text, pycorpus.parse_corpus(), base))
+            finally:
+                pycorpus.CORPUS_TEXT = saved
+            san[base] = san_flags
         tid = 0
         for text, sc, base in specs:
             names = S.type_names(sc)
             # ext-sized arrays sharing a sizer are not supported by the C++ full generator (check_nodes)
             trees = {n: S.tree(sc, n) for n in names}
-            batch = cpp_full.FullBatch(text, names, base=base, trees=trees, sanitize=True, opt=opt)
+            batch = cpp_full.FullBatch(text, names, base=base, trees=trees, sanitize=True, opt=opt, san_flags=san.get(base))
             batch.names = names
             batch.schema_text = text
             nodes, mod = py_impl.compile_prophy(text, self.workdir, base)
             batch.nodes = nodes
             for n in names:
-                self.types.append(CppCase(batch, text, n, trees[n], getattr(mod, n), tid))
+                self.types.append(CppCase(batch, text, n, trees[n], getattr(mod, n), tid, base if base in san else None))
                 for k, c in S.features(trees[n]).items():
                     check.bump(k, c)
                 tid += 1
@@ -86,6 +101,10 @@ class CppCorpus(object):
                 self.build_errors.append((batch, err))
         bad = set(id(b) for b, _ in self.build_errors)
         self.types = [c for c in self.types if id(c.batch) not in bad]
+
+    @property
+    def plain_types(self):
+        return [c for c in self.types if c.directed is None]
 
     def deft_requests(self):
         return [{'op': 'deft', 'id': c.tid, 't': c.tree} for c in self.types]
